@@ -112,6 +112,19 @@ CLAIMED["C01"] = (
     "TLC/SANY; repr(float) shortest round-trip digits, Decimal, int.from_bytes are trusted for turning floats and payload bytes into digit "
     "sequences; long texts compared by length + SHA-256",
     "DESIGN.md §4 C01")
+CLAIMED["C05"] = (
+    "TLC model checking of IWAFrame.tla (streams, chunks, every re-chunking for CHUNK=4; encoder/decoder loops with mutants); synthetic real "
+    "archives framed by the harness at TLC's cut compositions and decoded by the library; every IWA member of fixtures/template/generated "
+    "documents decoded and re-encoded with both sides read by the harness's own framing code and judged by TLC (Trace_IWAFrame)",
+    "IWAFrame.tla models archive streams as unique byte tokens so that sequence equality is content identity; TLC checks Decode(Encode(s)) = s, "
+    "independence from the cuts for every composition, the container rules and that declared lengths are repaired, and refutes StaleLength / "
+    "LenField2Bytes / Boundary variants. Synthetic archives (0 bytes, 64 KiB multiples -1/0/+1, many segments, multi-message segments, unknown "
+    "fields) are framed at TLC's compositions scaled to real sizes with cut points perturbed by one byte, compressed / stored / mixed, and must "
+    "decode to the original segments; ~1300 (quick) / ~5300 (thorough) real members are decoded and re-encoded and TLC judges stream identity "
+    "by digests of exact bytes, every chunk record, data completeness and header lengths.",
+    "TLC/SANY; snappy and protobuf observed only through lengths and SHA-256 digests; stored chunks whose raw bytes are themselves valid "
+    "snappy are not generated (ambiguous by the format's own 'try to uncompress' rule)",
+    "DESIGN.md §4 C05")
 NOT_YET = "check not built yet in this round (planned: see DESIGN.md section for this property)"
 NA = {}
 
